@@ -331,3 +331,38 @@ def garbage_locality(g0: bool, g1: bool, g2: bool, g3: bool, g4: bool, dup: bool
     ok = len(log1.warnings) == 0 and len(log2.warnings) == n_g
     ok = ok and got == ref and ref == got
     return done(ok)
+
+
+# ---------------------------------------------------------------------------------------------
+# C11 obligation 4 for notes: arbitrary tick order -> ValueError or correctly placed timestamps
+# ---------------------------------------------------------------------------------------------
+
+
+def note_section_any_order(t0: int, t1: int, t2: int, u0: int, u1: int, u2: int, tb: int) -> bool:
+    """
+    pre: t0 >= 0 and t1 >= 0 and t2 >= 0 and u0 >= 0 and u1 >= 0 and u2 >= 0 and tb > 0
+    post: _
+    """
+    ticks, sus = [t0, t1, t2][:NI], [u0, u1, u2][:NI]
+    lines = [K.N(ticks[k], IDX[k] if IDX[k] <= 4 else 0, sus[k]) for k in range(NI)]
+    evs = [BPMEvent(tick=0, timestamp=AbsTime(0), bpm=120.0, _proximal_bpm_event_index=0),
+           BPMEvent(tick=tb, timestamp=AbsTime(5 * tb), bpm=60.5, _proximal_bpm_event_index=1)]
+    be = BPMEvents(events=evs, resolution=192)
+    is_sorted = True
+    for k in range(1, NI):
+        if ticks[k - 1] > ticks[k]:
+            is_sorted = False
+    with env(clock()):
+        try:
+            tr = InstrumentTrack.from_chart_lines(Instrument.GUITAR, Difficulty.EXPERT, lines, be)
+        except ValueError:
+            return done(not is_sorted)
+    groups = _groups(ticks)       # adjacent equal ticks
+    ok = len(tr.note_events) == len(groups)
+    if not ok:
+        return done(False)
+    for j, g in enumerate(groups):
+        ev = tr.note_events[j]
+        ok = ok and ev.tick == ticks[g[0]] and ev.timestamp.us == time_of(tb, ev.tick)
+        ok = ok and ev.end_timestamp.us == time_of(tb, ev.end_tick)
+    return done(ok)
